@@ -542,6 +542,51 @@ func propC18(h *H) {
 			h.St.Sample = fmt.Sprintf("%s: call sequence (tuple indices) %v -> f evaluated %d times", h.T, seq, calls)
 		}
 	}
+	// memoised recursion: f, evaluating argument a, calls the memoised function with a
+	// different argument b that the derived Hash maps to the same bucket; afterwards
+	// neither a nor b may be evaluated again
+	if len(collide) == 2 && nout > 0 {
+		a := func() []reflect.Value { return tuple(nt + extra) }
+		b := func() []reflect.Value { return tuple(nt + extra + 1) }
+		ca, cb := canonTuple(a()), canonTuple(b())
+		calls := map[string]int{}
+		var m reflect.Value
+		fn := reflect.MakeFunc(ft, func(args []reflect.Value) []reflect.Value {
+			c := canonTuple(args)
+			calls[c]++
+			if c == ca && calls[c] == 1 {
+				Call(m, b()...) // re-enter the memoised function
+			}
+			return fresult(c)
+		})
+		r, pan := Call(mem, fn)
+		if pan == "" {
+			m = r[0]
+			if m.Kind() == reflect.Interface {
+				m = m.Elem()
+			}
+			h.St.States++
+			for _, args := range [][]reflect.Value{a(), b(), a(), b()} {
+				res, pan := Call(m, args...)
+				h.St.Evals++
+				if pan != "" {
+					h.Violation("mem-call-panics", "recursion|"+h.T.String(), pan, args...)
+					break
+				}
+				want := fresult(canonTuple(args))
+				for i := 0; i < nout; i++ {
+					if Canon(res[i]) != Canon(want[i]) {
+						h.Violation("mem-wrong-result", "recursion|"+h.T.String(), "result differs from f's under memoised recursion", args...)
+					}
+				}
+			}
+			if calls[ca] > 1 || calls[cb] > 1 {
+				h.Violation("mem-evaluates-twice", "recursion-with-colliding-arguments", fmt.Sprintf("f evaluated %d times for a and %d times for b (a's evaluation calls the memoised function with b; derived Hash puts a and b in one bucket)", calls[ca], calls[cb]), append(a(), b()...)...)
+			}
+			h.St.Nontriv++
+			h.Outcome("mem-recursion")
+		}
+	}
 	h.Outcome("mem")
 }
 
